@@ -1,4 +1,4 @@
-HOOK_COMMITS = ["87f9882"]
+HOOK_COMMITS = ['87f9882', '1c3dfe2', '0d56a89', 'ee6a5bf', 'c3a75ff', 'a05dd9c', '30eebd5']
 
 TEXTS = {
     "C18": {
@@ -72,6 +72,15 @@ TEXTS["C20"] = {
     "text": "Generated sequences of Add/Clear/Wait with channels closing before and during the waits at chosen virtual instants, settle windows and context deadlines are executed on the real WatchSet in a synctest bubble and on the model; returned sets, error flags, return times and the set afterwards (Has for every channel) are compared, and each clause of the property is checked directly on the implementation.",
     "note": "Translation validation until the theorems over Model.WatchSet are finished.",
 }
+
+_REC_TECH = "Lean 4 model of the retry queue / backoff / timer state machine, single-mode rounds and status commit (Model.Reconciler); the real reconciler runs under testing/synctest and is compared step by step (target calls, statuses, low-watermark); direct oracles for convergence, status write-back and retry pacing; Lean theorems under construction"
+_REC_NOTE = "Translation validation until the theorems over Model.Reconciler are finished. Batch mode is decided by the oracle only. Known finding K4 (retry result dropped after a foreign status-only write) is reported, not fixed."
+for _pid, _txt in {
+    "C14": "After failures stop and the table is quiet for more than four maximal backoffs the target must equal the table (last successful call per live object an Update with its latest data, status Done; removed objects deleted), for round sizes 1..1000, single and batch operations, arbitrary failure patterns and writes injected while an Update is in flight.",
+    "C15": "At every quiet point: Done only for data the target actually holds, Error only for a version whose last Update failed, no deleted object re-created, no user or foreign field changed by a status write, no Update for an object whose status is Done. One genuine defect (a retry's status commit overwrote a foreign status-only change with the stale original object) was found and repaired.",
+    "C16": "Consecutive failed attempts on one object without a change or success in between must be at least the minimum backoff apart with non-shrinking waits; the low-watermark reported by WaitUntilReconciled is compared with the model after every step and must be zero once nothing awaits retry.",
+}.items():
+    TEXTS[_pid] = {"engine": "lean-model+harness(synctest)", "design_ref": "4/" + _pid, "technique": _REC_TECH, "text": _txt, "note": _REC_NOTE}
 
 # every property not in TEXTS/PROPS must be listed here with a reason
 NOT_APPLICABLE = []
